@@ -142,9 +142,11 @@ class HArr:
         self.fresh = fresh
         self.islist = islist
         self.unit = unit
+        self.inv = None     # ghost: inverse permutation (set for argsort results / is_permutation)
 
     def replace(self, **kw):
         o = HArr(self.kind, self.n, self.data, self.org, self.base, self.fresh, self.islist, self.unit)
+        o.inv = self.inv
         for k, v in kw.items():
             setattr(o, k, v)
         return o
